@@ -49,23 +49,26 @@ def llm_fn_for(kind, version):
 
 
 def explore_world(task):
-    version, order, dialog, exceptions, turns = task
+    version, order, dialog, exceptions, turns = task[:5]
+    library = len(task) > 5 and task[5] == "library"
     v2 = version == "2.x"
     res = {"worlds": 1, "turns": 0, "conversations": 0, "rejections": 0, "rewrites": 0, "llm_text_turns": 0,
            "turns_after_a_block_or_rewrite": 0, "rail_calls": 0, "viol": []}
-    info0 = {"engine": "E3-world", "prop": "C02", "version": version, "order": list(order), "dialog": dialog, "exceptions": exceptions}
+    info0 = {"engine": "E3-world", "prop": "C02", "version": version, "order": list(order), "dialog": dialog, "exceptions": exceptions, "library_rails": library}
     try:
         if v2:
-            world = rw.v2_world(in_order=("in1",), out_order=order, dialog=dialog, exceptions=exceptions)
+            world = rw.v2_world(in_order=("in1",), out_order=order, dialog=dialog, exceptions=exceptions, library=library)
         else:
             world = rw.v1_world(in_order=("in1",), out_order=order, dialog=dialog, exceptions=exceptions)
     except Exception as e:
         res["viol"].append((f"world-rejected:{version}", repr(e), info0))
         return res
     outs = outcomes_v2(order) if v2 else outcomes_v1(order)
+    if library:
+        outs = [o for o in outs if "W" not in o]   # the shipped rail allows or rejects
     kinds = (["llm", "predef"] + ([] if v2 else ["var"])) if dialog is True else ["llm"]
     nonce = [0]
-    tag = f"{'v2' if v2 else 'v1'}:{'llmlib' if dialog == 'llm' else ('dialog' if dialog else 'nodialog')}"
+    tag = f"{'v2' if v2 else 'v1'}:{'llmlib' if dialog == 'llm' else ('dialog' if dialog else 'nodialog')}" + (":library-rails" if library else "")
 
     def expand(ctx, t, hist, disturbed):
         if t > turns:
@@ -118,7 +121,7 @@ def explore_world(task):
                         # nothing for the output rails to gate - outside the statement, counted
                         res["turns_without_generated_message"] = res.get("turns_without_generated_message", 0) + 1
                         res["llm_text_turns"] -= 1
-                        if turn.text and not (turn.text or "").startswith(("REFUSED", "EXC:")):
+                        if turn.text and not (turn.text or "").startswith(("REFUSED", "EXC:")) and turn.text != rw.LIB_REFUSAL:
                             bad("reply-without-generation", f"no LLM text was generated but the reply is {turn.text!r}")
                         if v2:
                             expand(turn.reply.state, t + 1, hist + [step], now_disturbed)
@@ -135,7 +138,7 @@ def explore_world(task):
                         if k == "W":
                             cur = verdicts[r][1]
                     # v2 routes the refusal itself through `bot say`; calls on the refusal text are not demanded
-                    got = [c for c in out_calls if not str(c[1]).startswith("REFUSED-")]
+                    got = [c for c in out_calls if not str(c[1]).startswith("REFUSED-") and c[1] != rw.LIB_REFUSAL]
                     if got != expected:
                         bad("output-rail-sequence", f"order={order} outcome={oc}: LLM text {llm_text!r}; rails invoked {got}, expected {expected}; reply {turn.text!r}")
                     if rejected_by:
@@ -146,12 +149,12 @@ def explore_world(task):
                         if exceptions:
                             if v2:
                                 evs = [e for e in reply_events(turn.reply) if e.get("type") == "OutputRailException"]
-                                ok = bool(evs) and evs[0].get("message") == f"BLOCKED-{rejected_by}"
+                                ok = bool(evs) and evs[0].get("message") == rw.v2_exc_message(rejected_by, library)
                             else:
                                 ok = turn.text == f"EXC:BLOCKED-{rejected_by}"
                             if not ok:
                                 bad("reply-is-not-the-rail-exception", f"rail {rejected_by} rejected; reply {turn.text!r}")
-                        elif turn.text != f"REFUSED-{rejected_by}":
+                        elif turn.text != (rw.v2_refusal(rejected_by, library) if v2 else f"REFUSED-{rejected_by}"):
                             bad("reply-is-not-the-refusal", f"rail {rejected_by} rejected; reply {turn.text!r}")
                     else:
                         if cur != llm_text:
@@ -351,6 +354,10 @@ def tasks(tier):
                             continue
                         seen.add(key)
                         out.append((version, order, dialog, exc, turns))
+    # the shipped `self check output` rail (its action replaced by a stub)
+    for dialog in (False, True, "llm"):
+        for exc in (False, True):
+            out.append(("2.x", ("out1",), dialog, exc, 2 if tier == "quick" else 3, "library"))
     for dialog in (False, True):
         out.append(("state-mode", dialog, 2 if tier == "quick" else 3))
     out.append(("parallel", 2))
@@ -389,7 +396,8 @@ def run(rep, tier):
 def replay(rp):
     v2 = rp["version"] == "2.x"
     order = tuple(rp["order"])
-    world = (rw.v2_world if v2 else rw.v1_world)(in_order=("in1",), out_order=order, dialog=rp["dialog"], exceptions=rp["exceptions"])
+    world = (rw.v2_world(in_order=("in1",), out_order=order, dialog=rp["dialog"], exceptions=rp["exceptions"], library=rp.get("library_rails", False)) if v2
+             else rw.v1_world(in_order=("in1",), out_order=order, dialog=rp["dialog"], exceptions=rp["exceptions"]))
     ctx = {} if v2 else []
     for step in rp["history"]:
         verdicts = {"in1": "A"}
